@@ -118,6 +118,16 @@ async fn try_handle_request(
         .await
 }
 
+#[cfg(feature = "verif-hooks")]
+/// Runs one request through the same path a served connection uses.
+pub(crate) async fn verif_handle_connection(
+    req: Request<hyper::Body>,
+    state: ServerState,
+    remote_addr: SocketAddr,
+) -> Result<Response<hyper::Body>, Infallible> {
+    handle_connection(req, state, remote_addr).await
+}
+
 fn create_bad_request(status: &Status) -> Response<hyper::Body> {
     // This should be infallible.
     let buffer =
